@@ -18,6 +18,21 @@ CLAIMED = {
    text="Every (scale, epoch count, duration) triple of the lattices is run through + - += -=, the Unit forms and exact-integer float seconds, and through the identities (e+d)-e=d, (e+d)-d=e, e+(f-e)=f, judged on to_parts(); Epoch - Epoch is checked for all 81 scale pairs both relationally (left scale after re-expressing the right operand) and against the exact model for the uniform scales and UTC; a stateright BFS chains +-d from each scale's zero, a leap second and -1 century.",
    note="Traces that hit a duration bound are don't-cares (the statement excludes them). Cross-scale differences with an ET/TDB operand are judged relationally only.",
    ref="DESIGN.md §4 C04"),
+ "C07": dict(
+   technique="bounded explicit-state model checking: exhaustive enumeration of a phase lattice over +-10 000 years (7.5 M / 29 M instants x 3 sub-second offsets) x source scales x both directions through the real conversions, judged in integer nanoseconds against the two closed forms evaluated with constants parsed from the NAIF kernel",
+   text="Every lattice instant J2000 + k x (1 day + 97 s) (quick) / (6 h + 97 s) (thorough), with sub-offsets {0, 1 ns, 1/2 s}, is converted from TAI (all points) and from TT/GPST/QZSST/GST/BDT (every 8th) to ET and TDB and back; the same counts are read as ET/TDB and converted to the six uniform scales and back. Each result is compared with 32.184 s + K sin E (NAIF) resp. the ESA form at the output's own t within 30 ns, each round trip within 20 ns, and points more than 100 ns apart must keep their order. The maximum observed errors are reported in the evidence (about 1 ns / 12 ns).",
+   note="A statement about a transcendental function at 6e20 instants: the lattice step is coprime with the anomalistic year so phases do not repeat; between lattice points the closed form moves by < 1e-9 of the spacing. Platform libm sin() on both sides.",
+   ref="DESIGN.md §4 C07"),
+ "C11": dict(
+   technique="bounded explicit-state model checking: exhaustive enumeration of the unit-multiple duration lattice through the real decompose/Display/FromStr/serde chain, and of the parser's complete spelling, component-subset and offset tables, judged by integer decomposition and a reference renderer",
+   text="~8 000 (quick) / ~25 000 (thorough) durations within 10 000 years (every k x unit +- 0..3 ns for the seven units and ~100 values of k, both signs) are decomposed, subdivided, displayed, parsed back, serialized to JSON and back and read through Epoch::hours()..nanoseconds(); every result is compared with the integer model / reference text and the parse-back with the original parts. All 25 unit spellings x 12 values x sign, all 127 component subsets x 3 value sets x sign and all 28 800 offset strings in five shapes are parsed and compared with the value they denote.",
+   note="The sign of a positive decomposition may be 0 or +1 (suite pins 0). Forms without a space between value and unit are undocumented and not exercised.",
+   ref="DESIGN.md §4 C11"),
+ "C13": dict(
+   technique="bounded explicit-state model checking: exhaustive enumeration of all strings up to length 4/5 over per-parser alphabets (incl. 2-, 3-, 4-byte characters and non-ASCII digits) and of grammar-derived corpora closed under all single- and double-point mutations, through the ten real parser entry points under overflow checks with panic capture and a watchdog",
+   text="5.4 M (quick) / 88 M (thorough) inputs: every string of up to L symbols per parser, every single mutant (delete, truncate, substitute, insert over the alphabet) of every seed, every double mutant of seeds up to 16/40 characters, numeric extremes (huge digit runs, 1e400, inf, nan, i32/u32 limits, non-ASCII digits) spliced into every numeric field, and for the two-argument entry points mutated formats x mutated inputs. The call must return Ok or Err: panics are caught (overflow checks on), a watchdog bounds each call. Second clause: the full product of boundary field values rendered as well-formed text must be rejected when a field is out of range, in five text shapes and through three entry points.",
+   note="'All UTF-8 strings' is approximated by the stated alphabets and mutation operators. Known finding D26 (30/31 February in leap years accepted; pinned by the suite) with a narrow signature.",
+   ref="DESIGN.md §4 C13"),
  "C08": dict(
    technique="bounded explicit-state model checking: exhaustive enumeration of the calendar lattice (every day of 1600-2400 / of 0001-9999, far years to +-30000) x times of day x 9 scales and of the full 12 M-tuple rejection product through the real constructors, judged by Hinnant's days_from_civil",
    text="Every enumerated (date, time of day, scale) is built with maybe_from_gregorian (and, on every 16th, all convenience constructors) and the elapsed count compared to the nanosecond with (days_from_civil(date) - days(reference date)) x 86400 s + time of day - reference time of day; is_gregorian_valid is cross-checked. The accepted/rejected partition is checked on the full product of boundary values of all seven fields (36 years x 16 months x 35 days x 6 hours x 4 minutes x 5 seconds x 5 nanosecond values) and on second = 60 for the last day of every month 1958-2030 against the IERS list.",
